@@ -23,7 +23,7 @@ impl<A: Actor> WeakAddr<A> {
     }
 
     pub fn stopped(&self) -> bool {
-        self.running.peek().is_some()
+        crate::context::latch_resolved(&self.running)
     }
 
     pub fn try_stop(&mut self) -> Result<()> {
